@@ -108,6 +108,7 @@ structure PInv (d : DST) (L : Nat) (oa : List Args) (s : St) : Prop where
   oc : s.c.packetIsOpen = true → s.c.offContent ≤ s.c.at_
   cz : s.c.contentSize ≤ 8 * L
   hwle : hw s.log ≤ s.c.at_
+  hweq : s.c.packetIsOpen = true → hw s.log = s.c.at_
   chain : ChainOK (8 * L) s.log
   stin : ∀ e ∈ s.log, StoreIn L e
 
@@ -137,7 +138,8 @@ theorem PSame.inv {d : DST} {L : Nat} {oa : List Args} {s s' : St} (h : PSame s 
   ⟨h.nh.trans hi.nh, h.len.trans hi.len, h.pkt.trans hi.pkt, by rw [h.at_]; exact hi.at_,
    by rw [h.isOpen, h.saved]; exact hi.sv, h.oa.trans hi.oa, by rw [h.sb]; exact hi.sb,
    by rw [h.isOpen, h.offc, h.at_]; exact hi.oc, by rw [h.csz]; exact hi.cz,
-   by rw [h.ext.hw, h.at_]; exact hi.hwle, by rw [h.ext.chain]; exact hi.chain, (h.sin L).storesIn hi.stin⟩
+   by rw [h.ext.hw, h.at_]; exact hi.hwle, by rw [h.isOpen, h.ext.hw, h.at_]; exact hi.hweq,
+   by rw [h.ext.chain]; exact hi.chain, (h.sin L).storesIn hi.stin⟩
 
 theorem PSame.ev (s : St) (e : Ev) (h : Neutral e := by exact ⟨fun _ => rfl, fun _ _ => rfl⟩)
     (h2 : ∀ L, StoreIn L e := by intro _; trivial) : PSame s (s.ev e) :=
@@ -288,7 +290,7 @@ theorem openWrite_pinv (args : Args) (hargs : args ∈ openArgsOf oa) (ts : Nat)
     · exact PSame.refl _
   generalize (if d.feat.tsBegin.isSome = true then s2.ev (.tsWrite "begin" ts) else s2) = s3 at h4
   have hx3 : Ext Neutral s s3 := hx.trans h4.ext
-  refine ⟨h4.nh.trans r1, h4.len.trans hlen2, ?_, ?_, ?_, ?_, ?_, fun _ => Nat.le_refl _, ?_, ?_, ?_, ?_⟩
+  refine ⟨h4.nh.trans r1, h4.len.trans hlen2, ?_, ?_, ?_, ?_, ?_, fun _ => Nat.le_refl _, ?_, ?_, fun _ => rfl, ?_, ?_⟩
   · show s3.c.packetSize = 8 * L; rw [h4.pkt, r4]; exact hi.pkt
   · show s3.c.at_ ≤ 8 * L; rw [h4.at_]; exact hat2
   · intro _; show SavedOK _ s3.c.saved _; rw [h4.saved]; exact hsv2
@@ -382,6 +384,7 @@ theorem findWrite_src (spec : String → Option WSrc) (n : String) (w : Write) :
     `P` is any property of the platform state and `E` the value of `is_tracing_enabled` (neither is touched) -/
 structure PInvO (d : DST) (L : Nat) (P : Plat → Prop) (E : Bool) (s0 s : St) : Prop where
   sin : Ext (StoreIn L) s0 s
+  czq : s.c.contentSize = s0.c.contentSize
   nh : s.halted = false
   len : s.buf.length = L
   pkt : s.c.packetSize = 8 * L
@@ -395,6 +398,7 @@ structure PInvO (d : DST) (L : Nat) (P : Plat → Prop) (E : Bool) (s0 s : St) :
 /-- what the closing function leaves behind -/
 structure PClosed (L : Nat) (P : Plat → Prop) (E : Bool) (s0 s : St) : Prop where
   sin : Ext (StoreIn L) s0 s
+  czq : s.c.contentSize = s0.c.contentSize
   nh : s.halted = false
   len : s.buf.length = L
   pkt : s.c.packetSize = 8 * L
@@ -432,7 +436,7 @@ theorem writeBack_pinv (P : Plat → Prop) (E : Bool) (env : SerEnv) (name : Str
       have hr := runSer_fields (fun st => writeBits env w.sc w.oib v st) (s.setAt off) hi.nh hin.1
       simp only at hr
       obtain ⟨r1, r2, r3, r4, r5, r6, r7, r8, r9, r10⟩ := hr
-      refine ⟨?_, r1, ?_, ?_, ?_, ?_, ?_, ?_, ?_, ?_⟩
+      refine ⟨?_, r9.trans hi.czq, r1, ?_, ?_, ?_, ?_, ?_, ?_, ?_, ?_⟩
       · exact (hi.sin.trans (Ext.of_log_eq rfl : Ext (StoreIn L) s (s.setAt off))).trans
           (runSer_sin L _ (fun st h => writeBits_good L env w.sc w.oib v st h) (s.setAt off) hi.len hin.1)
       · rw [r3]; exact hin.2.2.2.trans hi.len
@@ -486,10 +490,10 @@ theorem closeFinish_closed (P : Plat → Prop) (E : Bool) (ts : Nat) (saved : Bo
     have hpk : s3.c.packetSize = 8 * L := h4.pkt.trans hi.pkt
     split
     · exact ⟨(hi.sin.trans (h4.sin L)).trans ⟨[_], rfl, by intro e he; simp at he; subst he; trivial⟩,
-        h4.nh.trans hi.nh, h4.len.trans hi.len, hpk, hpk, by show s3.c.contentSize ≤ _; rw [h4.csz]; exact hi.cz,
+        h4.csz.trans hi.czq, h4.nh.trans hi.nh, h4.len.trans hi.len, hpk, hpk, by show s3.c.contentSize ≤ _; rw [h4.csz]; exact hi.cz,
         rfl, by show P s3.p; rw [h4p]; exact hi.pp, h4e.trans hi.en⟩
     · exact ⟨(hi.sin.trans (h4.sin L)).trans ⟨[_], rfl, by intro e he; simp at he; subst he; trivial⟩,
-        h4.nh.trans hi.nh, h4.len.trans hi.len, hpk, hpk, by show s3.c.contentSize ≤ _; rw [h4.csz]; exact hi.cz,
+        h4.csz.trans hi.czq, h4.nh.trans hi.nh, h4.len.trans hi.len, hpk, hpk, by show s3.c.contentSize ≤ _; rw [h4.csz]; exact hi.cz,
         rfl, by show P s3.p; rw [h4p]; exact hi.pp, h4e.trans hi.en⟩
 
 include hcfg hsmall in
@@ -498,11 +502,11 @@ theorem closeWrite_closed (P : Plat → Prop) (E : Bool) (ts : Nat) (saved : Boo
     (hnh : s.halted = false) (hlen : s.buf.length = L) (hpkt : s.c.packetSize = 8 * L) (hat : s.c.at_ ≤ 8 * L)
     (hsv : SavedOK d.pcOp.members s.c.saved (8 * L)) (ho : s.c.packetIsOpen = true) (hp : P s.p)
     (hen : s.c.isTracingEnabled = E) :
-    PClosed L P E s (closeWrite cfg d ts saved s) := by
+    PClosed L P E (s.setContentSize s.c.at_) (closeWrite cfg d ts saved s) := by
   unfold closeWrite
-  exact closeFinish_closed d L P E ts saved s _
-    (closeBacks_pinv cfg d L A hcfg hsmall P E ts s (s.setContentSize s.c.at_)
-      ⟨Ext.of_log_eq rfl, hnh, hlen, hpkt, hat, hsv, hat, ho, hp, hen⟩)
+  exact closeFinish_closed d L P E ts saved (s.setContentSize s.c.at_) _
+    (closeBacks_pinv cfg d L A hcfg hsmall P E ts (s.setContentSize s.c.at_) (s.setContentSize s.c.at_)
+      ⟨Ext.refl _ _, rfl, hnh, hlen, hpkt, hat, hsv, hat, ho, hp, hen⟩)
 
 theorem closeFinish_neutral (d : DST) (ts : Nat) (saved : Bool) (s : St) : Ext Neutral s (closeFinish d ts saved s) := by
   unfold closeFinish
@@ -532,7 +536,20 @@ theorem closeWrite_pinv (ts : Nat) (saved : Bool) (s : St) (hi : PInv d L oa s) 
   have hx := closeWrite_neutral cfg d ts saved s
   exact ⟨h.nh, h.len, h.pkt, by rw [h.at_]; exact Nat.le_refl _, fun x => by rw [h.isOpen] at x; simp at x, h.pp.1,
     h.pp.2, fun x => by rw [h.isOpen] at x; simp at x, h.cz,
-    by rw [hx.hw, h.at_]; exact Nat.le_trans hi.hwle hi.at_, by rw [hx.chain]; exact hi.chain, h.sin.storesIn hi.stin⟩
+    by rw [hx.hw, h.at_]; exact Nat.le_trans hi.hwle hi.at_, fun x => by rw [h.isOpen] at x; simp at x,
+    by rw [hx.chain]; exact hi.chain, h.sin.storesIn hi.stin⟩
+
+include hcfg hsmall in
+/-- **the content size a closing saves is the end of the packet's last record** (or of the packet context when it holds
+    none): what goes into the `content_size` field is `hw` of the log -/
+theorem closeWrite_content_size (ts : Nat) (saved : Bool) (s : St) (hi : PInv d L oa s) (ho : s.c.packetIsOpen = true) :
+    (closeWrite cfg d ts saved s).c.contentSize = hw s.log ∧ hw s.log ≤ 8 * L := by
+  have h := closeWrite_closed cfg d L A hcfg hsmall (fun p => p.openArgs = oa ∧ ∀ x ∈ p.setBufs, x.2 = L)
+    s.c.isTracingEnabled ts saved s hi.nh hi.len hi.pkt hi.at_ (hi.sv ho) ho ⟨hi.oa, hi.sb⟩ rfl
+  refine ⟨?_, Nat.le_trans hi.hwle hi.at_⟩
+  rw [h.czq]
+  show s.c.at_ = _
+  exact (hi.hweq ho).symm
 
 include hcfg hsmall in
 theorem closeGuarded_pinv (ts : Nat) (s : St) (hi : PInv d L oa s) : PInv d L oa (closeGuarded cfg d ts s) := by
@@ -558,9 +575,12 @@ theorem setBuf_pinv (hA : 0 < A) (s : St) (hi : PInv d L oa s) : PInv d L oa (se
   unfold setBuf
   simp only [hu]
   split
-  · exact ⟨hi.nh, by simp, rfl, Nat.le_refl _, hi.sv, hi.oa, hi.sb,
-      fun h => Nat.le_trans (hi.oc h) hi.at_, hi.cz, Nat.le_trans hi.hwle hi.at_, hi.chain, hi.stin⟩
-  · exact ⟨hi.nh, by simp, rfl, hi.at_, hi.sv, hi.oa, hi.sb, hi.oc, hi.cz, hi.hwle, hi.chain, hi.stin⟩
+  · rename_i hfull
+    have hfull' : s.c.at_ = 8 * L := by rw [← hi.pkt]; simpa using hfull
+    exact ⟨hi.nh, by simp, rfl, Nat.le_refl _, hi.sv, hi.oa, hi.sb,
+      fun h => Nat.le_trans (hi.oc h) hi.at_, hi.cz, Nat.le_trans hi.hwle hi.at_,
+      fun h => (hi.hweq h).trans hfull', hi.chain, hi.stin⟩
+  · exact ⟨hi.nh, by simp, rfl, hi.at_, hi.sv, hi.oa, hi.sb, hi.oc, hi.cz, hi.hwle, hi.hweq, hi.chain, hi.stin⟩
 
 include hsmall in
 theorem deliverAndSwap_pinv (hA : 0 < A) (wasOpen : Bool) (n : Nat) (s : St) (hi : PInv d L oa s) :
@@ -685,45 +705,47 @@ theorem traceWrite_pinv (e : ERT) (he : e ∈ d.erts) (args : Args) (hargs : Arg
     (runSer_same _ s).ext.mono PQuiet.neutral
   have hge1 : s.c.at_ ≤ (runSer (serRecord (serEnvOf cfg d e.id s.c.curLastEventTs s.c) d e args) s).c.at_ := by
     rw [r2]; exact hge
-  have h1 : PInv d L oa (runSer (serRecord (serEnvOf cfg d e.id s.c.curLastEventTs s.c) d e args) s) := by
-    refine ⟨r1, ?_, ?_, ?_, ?_, ?_, ?_, ?_, ?_, ?_, ?_, ?_⟩
-    rotate_left 6
-    · intro ho
-      rw [r8, r2]
-      exact Nat.le_trans (hi.oc (by rw [← r6]; exact ho)) hge
-    · rw [r9]; exact hi.cz
-    · rw [hx.hw]; exact Nat.le_trans hi.hwle hge1
-    · rw [hx.chain]; exact hi.chain
-    · exact (runSer_sin L _ (fun st h => serRecord_good L _ d e args st h) s hi.len hin.1).storesIn hi.stin
-    · rw [r3, hin.2.2]; exact hi.len
-    · rw [r4]; exact hi.pkt
-    · rw [r2]
-      have := hin.2.1
-      rw [hi.pkt] at this
-      exact this
-    · intro ho
-      rw [r5, serRecord_saved]
-      exact hi.sv (by rw [← r6]; exact ho)
-    · rw [r7]; exact hi.oa
-    · rw [r7]; exact hi.sb
-  generalize runSer _ s = s1 at h1 hx hge1
-  split
-  · exact h1
+  have hlen1 : (runSer (serRecord (serEnvOf cfg d e.id s.c.curLastEventTs s.c) d e args) s).buf.length = L := by
+    rw [r3, hin.2.2]; exact hi.len
+  have hat1 : (runSer (serRecord (serEnvOf cfg d e.id s.c.curLastEventTs s.c) d e args) s).c.at_ ≤ 8 * L := by
+    rw [r2]
+    have := hin.2.1
+    rw [hi.pkt] at this
+    exact this
+  have hsv1 : (runSer (serRecord (serEnvOf cfg d e.id s.c.curLastEventTs s.c) d e args) s).c.saved = s.c.saved := by
+    rw [r5, serRecord_saved]
+  have hsin1 := runSer_sin L _ (fun st h => serRecord_good L _ d e args st h) s hi.len hin.1
+  generalize runSer _ s = s1 at r1 r4 r6 r7 r8 r9 hx hge1 hlen1 hat1 hsv1 hsin1
+  rw [if_neg (by rw [r1]; simp)]
   · have h3 : PSame s1 (if d.feat.erTs.isSome = true then s1.ev (.tsWrite "rec" s1.c.curLastEventTs) else s1) := by
       split
       · exact PSame.ev _ _
       · exact PSame.refl _
     generalize (if d.feat.erTs.isSome = true then s1.ev (.tsWrite "rec" s1.c.curLastEventTs) else s1) = s2 at h3
-    have h2i := h3.inv h1
+    have hx2 : Ext Neutral s s2 := hx.trans h3.ext
+    have hopen2 : s2.c.packetIsOpen = s.c.packetIsOpen := h3.isOpen.trans r6
     -- the record just serialised occupies `[at before, at now)`: after everything logged for this packet so far
-    have hrec : PInv d L oa (s2.ev (.recDone e.name s.c.at_ s2.c.at_)) :=
-      ⟨h2i.nh, h2i.len, h2i.pkt, h2i.at_, h2i.sv, h2i.oa, h2i.sb, h2i.oc, h2i.cz, Nat.le_refl _,
-        ⟨by rw [h3.ext.hw, hx.hw]; exact hi.hwle, by rw [h3.at_]; exact hge1, h2i.at_, h2i.chain⟩,
-        fun x hx' => by
-          have hx'' : x ∈ Ev.recDone e.name s.c.at_ s2.c.at_ :: s2.log := hx'
-          rcases List.mem_cons.mp hx'' with rfl | h
-          · trivial
-          · exact h2i.stin x h⟩
+    have hrec : PInv d L oa (s2.ev (.recDone e.name s.c.at_ s2.c.at_)) := by
+      refine ⟨h3.nh.trans r1, h3.len.trans hlen1, (h3.pkt.trans r4).trans hi.pkt, ?_, ?_, ?_, ?_, ?_, ?_, Nat.le_refl _,
+        fun _ => rfl, ⟨?_, ?_, ?_, ?_⟩, ?_⟩
+      · show s2.c.at_ ≤ 8 * L; rw [h3.at_]; exact hat1
+      · intro ho; show SavedOK _ s2.c.saved _; rw [h3.saved, hsv1]; exact hi.sv (hopen2.symm.trans ho)
+      · show s2.p.openArgs = oa; rw [h3.oa, r7]; exact hi.oa
+      · show ∀ x ∈ s2.p.setBufs, _; rw [h3.sb, r7]; exact hi.sb
+      · intro ho
+        show s2.c.offContent ≤ s2.c.at_
+        rw [h3.offc, r8, h3.at_]
+        exact Nat.le_trans (hi.oc (hopen2.symm.trans ho)) hge1
+      · show s2.c.contentSize ≤ 8 * L; rw [h3.csz, r9]; exact hi.cz
+      · show hw s2.log ≤ s.c.at_; rw [hx2.hw]; exact hi.hwle
+      · show s.c.at_ ≤ s2.c.at_; rw [h3.at_]; exact hge1
+      · show s2.c.at_ ≤ 8 * L; rw [h3.at_]; exact hat1
+      · show ChainOK (8 * L) s2.log; rw [hx2.chain]; exact hi.chain
+      · intro x hx'
+        have hx'' : x ∈ Ev.recDone e.name s.c.at_ s2.c.at_ :: s2.log := hx'
+        rcases List.mem_cons.mp hx'' with rfl | h
+        · trivial
+        · exact (hsin1.trans (h3.sin L)).storesIn hi.stin x h
     have h4 := commit_pinv cfg d L A oa hcfg hsmall _ hrec
     split
     · exact h4
@@ -827,7 +849,8 @@ theorem rtInit_pinv (d : DST) (L A : Nat) (hA : 0 < A) (hsmall : 8 * L + A ≤ 2
     PInv d L p.openArgs (rtInit L p) := by
   have hu : u32 (L * 8) = 8 * L := by simp only [u32]; omega
   refine ⟨rfl, by simp [rtInit], ?_, Nat.zero_le _, fun h => by simp [rtInit] at h, rfl, hsb,
-    fun h => by simp [rtInit] at h, Nat.zero_le _, Nat.le_refl _, trivial, fun e he => by simp [rtInit] at he⟩
+    fun h => by simp [rtInit] at h, Nat.zero_le _, Nat.le_refl _, fun h => by simp [rtInit] at h, trivial,
+    fun e he => by simp [rtInit] at he⟩
   show u32 (L * 8) = 8 * L
   exact hu
 
